@@ -431,7 +431,13 @@ def check_caches(run, modules, rule, functions=None, prog=None):
                 continue
             nstores += local_memos(run, rule, mi, name, fn)
             nstores += last_call_memos(run, rule, mi, name, fn)
-            from .rules._purity import stale_loop_variable
+            from .rules._purity import stale_loop_variable, ascending_index_deletion
+            for d_, cont_, idx_ in ascending_index_deletion(fn):
+                nstores += 1
+                run.subject(rule)
+                run.fail(rule, '%s|%s|ascending-deletion:%s' % (mi.name, name, cont_), mi.relpath, d_.lineno,
+                         "%s deletes the positions collected in '%s' from %s in ascending order: each deletion shifts the later entries down, so "
+                         "from the second one on a different (live) entry is removed" % (name, idx_, cont_))
             for r_, v_, l_, w_ in stale_loop_variable(fn):
                 nstores += 1
                 run.subject(rule)
